@@ -121,11 +121,11 @@ macro_rules! link_write_fail {
             let mut l = Link::new(Stream::Raw(FailWriter::new($fail_at)));
             let r = l.write(&v);
             let w = l.verif_raw();
+            kani::cover!($fail_at == 0 || r.is_ok(), "message completed before the failing call");
             if w.failed {
                 assert!(r.is_err(), "a transport error is never swallowed");
                 kani::cover!(w.calls == $fail_at + 1, "error injected at the chosen call");
             } else {
-                kani::cover!($fail_at == 0 || r.is_ok(), "message completed before the failing call");
                 if r.is_ok() { assert!(w.out_len == 3, "Ok => all delivered"); }
             }
             std::mem::forget(r);
